@@ -31,7 +31,10 @@ CONSTANTS Scenarios,     \* set of scenarios explored from Init
 (*                    malformed input, record the writer cannot express)     *)
 (*        "writefail" the temp file cannot take the output (file size limit,  *)
 (*                    full device): a write or the final flush fails, the    *)
-(*                    stream returns an error like "streamerr"              *)
+(*                    stream returns an error like "streamerr"; with a       *)
+(*                    compressed input (gz) the recompressor may hold the    *)
+(*                    data back, so that the failure shows only when the     *)
+(*                    recompressor is closed (errReturn "wrapperClose")      *)
 (*        "abort"     a verb exits the process directly inside the stream    *)
 (*        "wrapfail"  cannot be recompressed (bzip2): fails after the temp   *)
 (*                    file exists                                            *)
@@ -133,13 +136,17 @@ ErrStream == /\ alive /\ pc = "flushed" /\ File.kind \in {"streamerr", "writefai
              /\ temp' = "none" /\ ErrorExit /\ pc' = "returned" /\ Hook("errReturn")
              /\ UNCHANGED <<sc, cur, content, mode, written, leftovers, rvars>>
 \* inplace.streamDone
-StreamDone == /\ alive /\ pc = "flushed" /\ File.kind = "ok"
+StreamDone == /\ alive /\ pc = "flushed" /\ (File.kind = "ok" \/ (File.kind = "writefail" /\ File.gz))
               /\ pc' = (IF File.gz THEN "streamed-gz" ELSE "streamed") /\ Hook("streamDone")
               /\ UNCHANGED <<sc, cur, content, mode, temp, written, alive, exit, leftovers, rvars>>
 \* inplace.wrapperClosed (compressed inputs only)
-WrapperClosed == /\ alive /\ pc = "streamed-gz"
+WrapperClosed == /\ alive /\ pc = "streamed-gz" /\ File.kind = "ok"
                  /\ pc' = "streamed" /\ Hook("wrapperClosed")
                  /\ UNCHANGED <<sc, cur, content, mode, temp, written, alive, exit, leftovers, rvars>>
+\* inplace.errReturn("wrapperClose"): closing the recompressor writes what it held back; the temp file is removed first
+ErrWrapperClose == /\ alive /\ pc = "streamed-gz" /\ File.kind = "writefail"
+                   /\ temp' = "none" /\ ErrorExit /\ pc' = "returned" /\ Hook("errReturn")
+                   /\ UNCHANGED <<sc, cur, content, mode, written, leftovers, rvars>>
 \* inplace.closed
 Closed == /\ alive /\ pc = "streamed"
           /\ temp' = "complete" /\ pc' = "closed" /\ Hook("closed")
@@ -173,7 +180,7 @@ Restart == /\ ~alive /\ run < MaxRuns
            /\ UNCHANGED <<sc, content, mode, leftovers, staleLen>>
 
 Step == Begin \/ ErrEarly \/ TempCreated \/ ErrWrap \/ Wrapped \/ Wrote \/ Flushed \/ Abort \/ ErrStream
-        \/ StreamDone \/ WrapperClosed \/ Closed \/ Renamed \/ Chmodded \/ Finish
+        \/ StreamDone \/ WrapperClosed \/ ErrWrapperClose \/ Closed \/ Renamed \/ Chmodded \/ Finish
 Next == Step \/ Crash \/ Restart \/ (~alive /\ UNCHANGED vars)
 Spec == Init /\ [][Next]_vars
 
